@@ -51,7 +51,7 @@ CLAIMED = {
         note='Path handle: every path of push/pop/clear/normalize/make_root (in place for the four RI owners, stand-alone for both path types) is closed under L(O) too (virtual cut markers; normalize content over-approximated); composites (symbolic_push/append, PathBuf wrappers, resolve, relative_to) contain no storage access of their own and inherit the invariant. '
              '"No call panics" is decided for what the affine/automata domains see (bounds of splices, tiling lengths, usize underflow, scanner assertions). Genuine defect F6 was repaired by a fix: commit; '
              'the four non-closed paths are reported with witness ":" on the pre-fix tree. Trusted: utils::replace/allocate_range summaries, std Vec/slice contracts.',
-        technique='symbolic path enumeration over MIR + regular language closure on the marked grammar automaton + unsafe-site table (static analysis)',
+        technique='path-sensitive effect analysis of MIR (abstract interpretation, affine domain, all CFG paths) + regular language closure on the marked grammar automaton + unsafe-site table (static analysis)',
         engine='D+A+B+C',
     ),
     'C05': dict(
@@ -62,7 +62,7 @@ CLAIMED = {
         design_ref='DESIGN.md §3 Engine D (D3), Appendix B, §4 C05',
         note='Relies on C02 (scanner ranges = specification spans) and on the splice summaries of utils::replace/allocate_range. Exactness of the shield CONDITIONS is decided through the read-back inclusion '
              '(an unnecessary shield changes the path that is read back only in the documented form; a missing one makes the inclusion fail). Genuine defect F6 repaired (see C04).',
-        technique='symbolic path enumeration over MIR + marked-language inclusion (static analysis)',
+        technique='path-sensitive effect analysis of MIR (abstract interpretation, affine domain, all CFG paths) + marked-language inclusion (static analysis)',
         engine='D+A',
     ),
     'C07': dict(
@@ -99,7 +99,7 @@ CLAIMED = {
         design_ref='DESIGN.md §3 Engine D (D1–D3), §4 C09',
         note='NOT decided: that the segment sequence is the RFC 3986 §5.2.4 / Errata 4547 one, idempotence, agreement of normalized()/iterator/in-place on values, spill paths of the inline buffers '
              '(all functions of unbounded run-time stacks). Genuine defect F5 (no shield in normalize) was repaired by a fix: commit; the check reports it with witnesses on the pre-fix tree.',
-        technique='symbolic path enumeration over MIR + regular language closure with virtual cut markers (static analysis)',
+        technique='path-sensitive effect analysis of MIR (abstract interpretation, affine domain, all CFG paths) + regular language closure with virtual cut markers (static analysis)',
         engine='D+A',
     ),
     'C10': dict(
@@ -113,7 +113,7 @@ CLAIMED = {
         note='NOT decided: list semantics of push/pop/symbolic push (values). Genuine defects F9 (push of an empty segment after a trailing "./" underflowed) and F10 (push/pop on the empty path after an authority '
              'appended to the authority) were found by these rules and repaired by fix: commits. Old note: F9 (push of an empty segment after a trailing "./" underflowed the end offset: panic in debug builds) '
              'was found by the underflow rule and repaired by a fix: commit.',
-        technique='path-sensitive affine symbolic evaluation of MIR with loop havoc (effect analysis, static analysis)',
+        technique='path-sensitive effect analysis of MIR: abstract interpretation over an affine domain with loop widening, window accounting and tiling rules (static analysis)',
         engine='D',
     ),
     'C11': dict(
@@ -125,7 +125,7 @@ CLAIMED = {
         design_ref='DESIGN.md §3 Engine D (D1, D2), Engine B parametric start, §4 C11',
         note='That the edited text re-parses with exactly the requested sub-component value (language closure, D3) is decided under C04/C05 for the reference setters; for the authority handle the splice target '
              'is the verified scanner span or the authority edge plus the literal delimiter, which is what D1/D2/B establish. Genuine defect F3 was repaired by a fix: commit; all five unbalanced paths are reported on the pre-fix tree.',
-        technique='path-sensitive affine symbolic evaluation of MIR (effect analysis) + scanner typestate analysis (static analysis)',
+        technique='path-sensitive effect analysis of MIR (abstract interpretation, affine domain) + scanner typestate analysis (static analysis)',
         engine='D+B',
     ),
     'C13': dict(
@@ -173,7 +173,7 @@ CLAIMED = {
              're-arrangements pass; (4) the six typed base() wrappers re-wrap exactly that slice (unsafe-site class LEMMA).',
         design_ref='DESIGN.md §4 C16',
         note='NOT decided: suffix() (a prefix relation over normalised segment lists — run-time values). Relies on C02 for find_path.',
-        technique='automata inclusion lemma + path-sensitive symbolic execution of MIR over affine terms (static analysis)',
+        technique='automata inclusion lemma + path-sensitive abstract interpretation of MIR over affine terms (static analysis)',
         engine='A+D',
     ),
     'C17': dict(
